@@ -170,7 +170,15 @@ pub fn gen_case(t: &mut Tape, excl: &[usize]) -> Case {
     if t.chance(1, 4) {
         trait_attr.push_str(*t.pick(&[", unimock = false", ", mockall = false", ", mock_api = TrMock"]));
     }
-    let mut src = String::from("#![allow(warnings)]\nuse crate::rt;\n#[derive(Debug, Clone, PartialEq)] pub struct N(pub i32);\n#[derive(Debug, Clone, PartialEq)] pub struct S { pub a: i32 }\n");
+    // the trait may ask something of its implementor in a where clause (`where Self: Mark`): that is `Impl<T>`, not the target types
+    let where_self = t.chance(1, 5);
+    // the provided method may carry a codegen hint; unused attributes are denied, as in a crate under `deny(warnings)`
+    let dflt_inline = dflt_pat && t.flip();
+    let mut src = String::from(if dflt_inline { "#![allow(warnings)]\n#![deny(unused_attributes)]\n" } else { "#![allow(warnings)]\n" });
+    if where_self {
+        src.push_str("pub trait Mark {}\nimpl<T> Mark for ::entrait::Impl<T> {}\n");
+    }
+    src.push_str("use crate::rt;\n#[derive(Debug, Clone, PartialEq)] pub struct N(pub i32);\n#[derive(Debug, Clone, PartialEq)] pub struct S { pub a: i32 }\n");
     for d in 0..3 {
         src.push_str(&format!("#[::entrait::entrait(pub Dep{d})]\nfn dep{d}(_deps: &impl Sized) -> u32 {{ {} }}\n", d + 1));
     }
@@ -189,7 +197,7 @@ pub fn gen_case(t: &mut Tape, excl: &[usize]) -> Case {
         trait_methods[mi].params[j].name = "$p".to_string();
         src.push_str("macro_rules! __mk_tr { ($p:ident) => {\n");
     }
-    src.push_str(&format!("/*GEN*/ #[::entrait::entrait({trait_attr})]\n{at}pub trait Tr {{\n"));
+    src.push_str(&format!("/*GEN*/ #[::entrait::entrait({trait_attr})]\n{at}pub trait Tr{} {{\n", if where_self { " where Self: Mark" } else { "" }));
     for m in &trait_methods {
         src.push_str(&format!("    {};\n", trait_sig(m)));
     }
@@ -203,6 +211,9 @@ pub fn gen_case(t: &mut Tape, excl: &[usize]) -> Case {
         src.push_str("    fn convert<W: ::core::fmt::Debug + Default, const K: usize>(&self, w: W) -> String;\n");
     }
     if dflt_pat {
+        if dflt_inline {
+            src.push_str(*t.pick(&["    #[inline]\n", "    #[cold]\n", "    #[inline(always)]\n"]));
+        }
         src.push_str("    fn combine(&self, (a, b): (i32, i32), N(c): N, mut d: i32) -> String { d += 1; format!(\"DEFAULT|{},{},{},{}\", a, b, c, d) }\n");
     }
     if let Some(a) = byval_method {
@@ -448,6 +459,12 @@ pub fn gen_case(t: &mut Tape, excl: &[usize]) -> Case {
     if dflt_pat {
         classes.push("defaulted_method_with_parameter_patterns");
     }
+    if dflt_inline {
+        classes.push("defaulted_method_with_a_codegen_hint_under_deny_unused_attributes");
+    }
+    if where_self {
+        classes.push("trait_where_clause_on_self");
+    }
     let mut extras: Vec<String> = vec![];
     if let Some(k) = borrow_kind {
         extras.push(borrow_method(k, 0).0);
@@ -459,7 +476,10 @@ pub fn gen_case(t: &mut Tape, excl: &[usize]) -> Case {
         extras.push(format!("{}fn consume(self, x: i32) -> String", if a { "async " } else { "" }));
     }
     if dflt_pat {
-        extras.push("fn combine(&self, (a, b): (i32, i32), N(c): N, mut d: i32) -> String { .. }".into());
+        extras.push(format!("{}fn combine(&self, (a, b): (i32, i32), N(c): N, mut d: i32) -> String {{ .. }}", if dflt_inline { "#[inline / cold] " } else { "" }));
+    }
+    if where_self {
+        extras.push("[trait Tr where Self: Mark]".into());
     }
     if cfg_alt {
         extras.push("[each block has a `/// doc #[inline] #[cfg(any())]` alternative of its first fn]".into());
